@@ -70,7 +70,7 @@ func guardChain(b *ssa.BasicBlock) []guardStep {
 
 func c11(r *Run) {
 	w := r.W
-	ro := rolesOf(w)
+	ro := r.roles()
 	px := protoEffects(w)
 	disp, getCall := dispatchFn(w)
 	slot := ssa.Value(getCall)
@@ -112,7 +112,7 @@ func c11(r *Run) {
 		}
 	}
 	if nW < 3 {
-		broken("ANCHOR-LOST C11: %d writers of FDOperator callbacks", nW)
+		r.absentf(" C11: %d writers of FDOperator callbacks", nW)
 	}
 
 	// ---- R1 hang-up helper --------------------------------------------------------------------------
@@ -172,7 +172,7 @@ func c11(r *Run) {
 	// ---- R2 / R3 / R4 hang-up verdicts --------------------------------------------------------------
 	hupSites := findIns(disp, func(i ssa.Instruction) bool { return isCall(i, appendHup) })
 	if len(hupSites) < 3 {
-		broken("ANCHOR-LOST config=%s: %d hang-up sites in the dispatch function", w.Cfg.Name, len(hupSites))
+		r.absentf(" config=%s: %d hang-up sites in the dispatch function", w.Cfg.Name, len(hupSites))
 	}
 	var ioreads, iosends, readalls []ssa.Instruction
 	ioreads = findIns(disp, func(i ssa.Instruction) bool { return isCall(i, ioread) })
@@ -285,7 +285,7 @@ func c11(r *Run) {
 	{
 		inputsCalls := findIns(disp, func(i ssa.Instruction) bool { return isDynField(i, "FDOperator", "Inputs") })
 		if len(inputsCalls) == 0 {
-			broken("ANCHOR-LOST config=%s: dispatch function never invokes operator.Inputs", w.Cfg.Name)
+			r.absentf(" config=%s: dispatch function never invokes operator.Inputs", w.Cfg.Name)
 		}
 		var trigRead ssa.Value
 		for _, g := range guardChain(inputsCalls[0].Block()) {
@@ -308,7 +308,7 @@ func c11(r *Run) {
 			break
 		}
 		if trigRead == nil {
-			broken("ANCHOR-LOST config=%s: cannot identify the readable-event condition guarding operator.Inputs", w.Cfg.Name)
+			r.absentf(" config=%s: cannot identify the readable-event condition guarding operator.Inputs", w.Cfg.Name)
 		}
 		inputsSet := fieldNonNilFact("FDOperator", "Inputs")
 		onReadSet := fieldNonNilFact("FDOperator", "OnRead")
